@@ -302,3 +302,72 @@ class RunConversionLoopNumpy(Contract):
 
 
 fuc(CU + 'run_conversion_loop', props=['C01', 'C03', 'C16', 'C20'])(RunConversionLoopNumpy)
+
+
+# ---------------------------------------------------------------------------------------------
+# command line (C11, C06): the options reach the converter unchanged
+
+CLI_FUNCS = ('sgy2sgz', 'sgz2sgy')
+rec(CV + 'SeismicFileConverter.__init__', 'converter_init', CLI_FUNCS)
+rec(CV + 'SeismicFileConverter.run', 'converter_run', CLI_FUNCS)
+rec(CV + 'SgzConverter.__init__', 'sgz_converter_init', CLI_FUNCS)
+rec(CV + 'SgzConverter.convert_to_segy', 'convert_to_segy', CLI_FUNCS)
+rec('read.py::SgzReader.close', 'close', CLI_FUNCS)
+
+
+def register_cli_models(lib):
+    lib.ext['click.echo'] = lambda I, *a, **k: None
+
+
+MX.EXTRA_REGISTRARS.append(register_cli_models)
+
+
+class CliSgy2Sgz(Contract):
+    """sgy2sgz: one SegyConverter on the input file with the four window options as given (None when absent, 0 kept), then run() with the
+    output file, bits_per_voxel, blockshape (None = the converter's default) and reduce_iops as given"""
+    may_raise = ()
+    window = True
+
+    def inputs(self, c):
+        d = dict(input_segy_file='in.sgy', output_sgz_file='out.sgz', bits_per_voxel=c.sym_int('bits', name='bits_per_voxel'),
+                 blockshape=None, reduce_iops=c.sym_bool('ri', name='reduce_iops'))
+        for nm in ('min_il', 'max_il', 'min_xl', 'max_xl'):
+            d[nm] = c.sym_int(nm, lo=0, name=nm) if self.window else None
+        return d
+
+    def post(self, c, a, result):
+        calls = c.ghost.get('glue_calls', [])
+        tags = [t for (t, _, _) in calls]
+        c.ensure(mk_bool(tags == ['converter_init', 'converter_run']), 'one_converter_constructed_then_run')
+        if tags != ['converter_init', 'converter_run']:
+            return
+        ini, run = calls[0][1], calls[1][1]
+        c.ensure(mk_bool(ini['in_filename'] == 'in.sgy'), 'converter_on_the_input_file')
+        for nm in ('min_il', 'max_il', 'min_xl', 'max_xl'):
+            got = ini.get(nm)
+            c.ensure(mk_bool(got is None) if a[nm] is None else (mk_bool(got is not None) and eq(got, a[nm])), f'window_option_{nm}_passed_unchanged')
+        c.ensure(mk_bool(run['self'] is ini['self'] and run['out_filename'] == 'out.sgz' and run['blockshape'] is None), 'run_on_that_converter_with_the_output_file')
+        c.ensure(eq(run['bits_per_voxel'], a['bits_per_voxel']), 'bits_per_voxel_passed_unchanged')
+        c.ensure(Iff(run['reduce_iops'], a['reduce_iops']), 'reduce_iops_passed_unchanged')
+
+
+for _w in (True, False):
+    fuc('cli.py::sgy2sgz', props=['C11', 'C01'])(type('CliSgy2Sgz' + ('W' if _w else ''), (CliSgy2Sgz,), dict(window=_w, variant='window given' if _w else 'no window')))
+
+
+class CliSgz2Sgy(Contract):
+    """sgz2sgy: one SgzConverter on the input file, convert_to_segy(output file)"""
+    may_raise = ()
+
+    def inputs(self, c):
+        return dict(input_sgz_file='in.sgz', output_sgy_file='out.sgy')
+
+    def post(self, c, a, result):
+        calls = [k for k in c.ghost.get('glue_calls', []) if k[0] != 'close']
+        tags = [t for (t, _, _) in calls]
+        c.ensure(mk_bool(tags == ['sgz_converter_init', 'convert_to_segy']), 'one_converter_then_export')
+        if tags == ['sgz_converter_init', 'convert_to_segy']:
+            c.ensure(mk_bool(calls[0][1]['file'] == 'in.sgz' and calls[1][1]['self'] is calls[0][1]['self'] and calls[1][1]['out_file'] == 'out.sgy'), 'export_of_the_input_file_to_the_output_file')
+
+
+fuc('cli.py::sgz2sgy', props=['C06'])(CliSgz2Sgy)
